@@ -2,6 +2,6 @@
 # usage: tools_apply_mutant.sh <patch.diff> <check args...>   -- applies the patch to /repo, runs ./check, always reverts
 patch="$1"; shift
 git -C /repo apply "$patch" || exit 9
-cd /verif && ./check "$@"; rc=$?
+cd /verif && VERIF_NO_EVIDENCE=1 ./check "$@"; rc=$?
 git -C /repo checkout -- . 
 echo "exit=$rc"
